@@ -99,6 +99,7 @@ class World:
             'pending_key': cfg.get('pending_key', 'validated'), 'pending_pairs': cfg.get('pending_pairs', False),
             'block_delay_s': cfg.get('block_delay_s', 8), 'chain_name': cfg.get('chain_name', 'TEZOS_MAINNET'),
             'bake_jitter_ms': cfg.get('bake_jitter_ms', []), 'filter_rpc': cfg.get('filter_rpc', 'default'), 'constants': cfg.get('constants'),
+            'gas_drift_milligas_per_block': cfg.get('gas_drift_milligas_per_block', 0),
         })
         sk, pk, pkh = KEYS[cfg.get('key', 'tz1')]
         self.pkh = pkh
@@ -135,13 +136,23 @@ class World:
         self.cur_index = -1
         self.last_fault = 'none'
         self.last_kind = 'start'
+        self.in_client_call = False
 
     def bump(self, d, k, n=1):
         d[k] = d.get(k, 0) + n
 
+    # faults are addressed by the ordinal of the request within the step, or by what the request is (one-shot: the first match)
+    MATCH = {'inj': '/injection/operation', 'pend': '/chains/main/mempool/pending_operations', 'run': '/helpers/scripts/run_operation',
+             'ctr': '/context/contracts/', 'hdr': '/header'}
+
     def _fault_for(self, req):
         rel = req['i'] - self.step_first
         d = self.step_faults.get(str(rel))
+        if d is None:
+            for key, frag in self.MATCH.items():
+                if key in self.step_faults and frag in req['path']:
+                    d = self.step_faults.pop(key)
+                    break
         if d:
             self.last_fault = d['f']
         return d
@@ -166,11 +177,12 @@ class World:
             for idx, st in enumerate(self.scn['steps']):
                 self.cur_step = st
                 self.cur_index = idx
-                self.step_faults = st.get('faults') or {}
+                self.step_faults = dict(st.get('faults') or {})
                 self.step_first = self.tr.attempts
                 op = st['op']
                 sim.ev('step', i=idx, op=op, g=st.get('g'))
                 outcome = 'ok'
+                self.in_client_call = op in ('fill', 'autofill', 'sign', 'inject', 'send', 'seek_fee')
                 try:
                     self._do(st)
                 except core.SimCapExceeded as e:
@@ -184,6 +196,7 @@ class World:
                     outcome = type(e).__name__
                 except (ValueError, KeyError, AssertionError, StopIteration, TimeoutError, NotImplementedError) as e:
                     outcome = type(e).__name__ + ':' + str(e)[:160]
+                self.in_client_call = False
                 sim.ev('step_done', i=idx, outcome=outcome)
                 if outcome != 'ok' and op in ('fill', 'autofill', 'sign', 'inject', 'send', 'new'):
                     self.bump(self.info, f'client_step_failed:{op}')
@@ -198,6 +211,16 @@ class World:
             return
         if op == 'sleep':
             self.sim.advance(int(st['s'] * 1000))
+            return
+        if op == 'noise' and st.get('own_foreign') and st.get('after_ms'):
+            # the other wallet's operation reaches the node a little later: possibly while a later client call is in flight
+            def arrive(st=st):
+                node.add_foreign_kind_pending(self.pkh, kind=st.get('kind', 'increase_paid_storage'), n=st.get('n', 1))
+                self.bump(self.info, 'own_pending_operation_of_foreign_kind')
+                if self.in_client_call:
+                    self.bump(self.probes, 'own_operation_arrived_during_client_call')
+
+            self.sim.after(int(st['after_ms']), arrive, 'own_foreign_arrival')
             return
         if op == 'noise' and st.get('own_foreign'):
             node.add_foreign_kind_pending(self.pkh, kind=st.get('kind', 'increase_paid_storage'), n=st.get('n', 1))
